@@ -48,6 +48,8 @@ def run(ctx):
     # the header `ver:"X"` is str(version): the version gates of a dump must not change it (shared with C18.D2)
     from . import c18
     c18.version_immutable(ctx, 'C04.D1')
+    from . import c07
+    c07.writer_memo(ctx, 'C04.D1', 'zincdumper')
     # date-time denotation: the zone name written is justified for that instant (clause shared with C17.D3)
     from . import c17
     c17._api(ctx, ctx.model, rule='C04.D3', only=('zincdumper',))
